@@ -494,6 +494,7 @@ fn op_schema_parse(cmd: &J) -> Result<J, String> {
 	Ok(json!({"res": "ok", "nodes": nodes, "fp": bytes_json(schema.rabin_fingerprint()),
 		"fp_mut": fp_mut.map(|f| bytes_json(&f)).unwrap_or(J::Null), "has_pcf": pcf["has"], "pcf": pcf["pcf"],
 		"json": json_text, "json_nodes": json_nodes,
+		"direct_json_same": direct.as_ref().map(|s| s.json() == json_text).unwrap_or(false),
 		"direct_fp": direct.map(|s| bytes_json(s.rabin_fingerprint())).unwrap_or(J::Null)}))
 }
 
